@@ -1,13 +1,6 @@
-"""Per-property claim texts for MANIFEST.json."""
+"""Manifest data that is not per-check: hook commits and reasons for unclaimed properties."""
 
 HOOK_COMMITS = []
 
+# property id -> reason it is not claimed (anything unlisted and unbuilt gets a default text)
 NOT_APPLICABLE = {}
-
-CLAIMS = {
-    "C01": {
-        "technique": "rapid round-trip + independent-decoder differential; sandboxed mutation search; native fuzz",
-        "text": "Generated-input search: request/result round trips and token finders are compared with an independent Arrow decoder/walker on thousands of generated schemas, batches, method names and token placements; malformed and mutated bodies are executed in a memory-limited child so 'typed error, never a panic/crash' is observed literally. Exploration, not proof: held on everything generated.",
-        "note": "Trusts arrow-go's IPC reader/writer for the independent decoder; bodies whose framing declares >16 MiB more than is present are excluded by construction (recorded finding C01/oom-declared-length) and counted in the evidence.",
-    },
-}
